@@ -175,7 +175,7 @@ C03Violations(W, q, r) ==
     ELSE LET L == Lookup(W, q.segs) IN
          IF L.sel \notin {"file", "index", "html"} THEN {}
          ELSE LET f == L.node  len == FileLen(W, f)  specs == q.range.specs  parts == RangeParts(r) IN
-              IF q.range.unit_ok /\ Len(specs) >= 1 /\ \A i \in 1..Len(specs) : InFile(len, specs[i])
+              IF q.range.unit_ok /\ q.range.style # "empty_element" /\ Len(specs) >= 1 /\ \A i \in 1..Len(specs) : InFile(len, specs[i])
               THEN \* every range lies inside the file: 206 with exactly these slices, in request order
                    (IF r.status = 206 THEN {} ELSE {"C03.satisfiable_not_206"})
                    \cup (IF r.status = 206 /\ Len(parts) # Len(specs) THEN {"C03.part_count"} ELSE {})
@@ -215,7 +215,7 @@ C03Detail(W, q, r) ==
     ELSE LET L == Lookup(W, q.segs) IN
          IF L.sel \notin {"file", "index", "html"} THEN <<>>
          ELSE LET f == L.node  len == FileLen(W, f)  specs == q.range.specs  parts == RangeParts(r)
-                  sat == q.range.unit_ok /\ Len(specs) >= 1 /\ \A i \in 1..Len(specs) : InFile(len, specs[i])
+                  sat == q.range.unit_ok /\ q.range.style # "empty_element" /\ Len(specs) >= 1 /\ \A i \in 1..Len(specs) : InFile(len, specs[i])
               IN [i \in 1..Len(parts) |->
                     PartClass(W, f, parts[i],
                               IF sat /\ i <= Len(specs)
